@@ -67,6 +67,18 @@ def eval_case(case):
     if by_copy is None or any(len(v) != 1 or not isinstance(v[0], int) for v in by_copy.values()):
         return [], {"usable": False, "why": f"sites are not single-line edits (changed lines per copy: {by_copy})"}
     site_lines = [ms.copy_range(c)[0] + by_copy[c][0] for c in range(n)]
+    # the construct itself must sit on one physical line: the smallest statement containing the edited line is single-line
+    import ast
+
+    try:
+        tree = ast.parse(ms.text)
+    except SyntaxError:
+        return [], {"usable": False, "why": "program only passes the parser"}
+    for l in site_lines:
+        stmts = [s_ for s_ in ast.walk(tree) if isinstance(s_, ast.stmt) and s_.lineno <= l <= (s_.end_lineno or s_.lineno)]
+        smallest = min(stmts, key=lambda s_: (s_.end_lineno or s_.lineno) - s_.lineno, default=None)
+        if smallest is None or smallest.lineno != (smallest.end_lineno or smallest.lineno):
+            return [], {"usable": False, "why": f"the construct edited at line {l} spans several physical lines"}
     ref_changes = sorted(ch["lineNumber"] for r in ref.report["results"] for cs in r["changeset"] for ch in cs["changes"])
     out = []
     tag = f"{cm}|{seed_id}"
@@ -103,13 +115,13 @@ def eval_case(case):
         loc = "subdir" if "/" in path else "root"
         if got != exp:
             kind = "excluded-line-rewritten" if mode == "exclude" and set(got) - set(exp) else ("line-not-included-rewritten" if mode == "include" and set(got) - set(exp) else "permitted-line-not-rewritten")
-            out.append((f"{tag}|{mode}|{spelling}|{loc}|{kind}", f"{path}: patterns {[p for p in pats if p.startswith(path) or path.rsplit('/', 1)[-1] in p]} -> permitted sites {exp}, rewritten sites {got} (site lines {site_lines})"))
+            out.append((f"{tag}|{mode}|{kind}", f"[{spelling}, {loc}] {path}: patterns {[p for p in pats if p.startswith(path) or path.rsplit('/', 1)[-1] in p]} -> permitted sites {exp}, rewritten sites {got} (site lines {site_lines})"))
             continue
         nontrivial += 1
         named = sorted(l for l in changes_by_path.get(path, []) if l in site_lines)
         want = sorted(site_lines[c] for c in exp)
         if named != want:
-            out.append((f"{tag}|{mode}|{spelling}|{loc}|change-lines-differ", f"{path}: rewritten site lines {want} but change entries name {sorted(changes_by_path.get(path, []))}"))
+            out.append((f"{tag}|{mode}|change-lines-differ", f"[{spelling}, {loc}] {path}: rewritten site lines {want} but change entries name {sorted(changes_by_path.get(path, []))}"))
     return sorted(set(out)), {"usable": True, "files": len(expect), "nontrivial": nontrivial}
 
 
